@@ -91,6 +91,8 @@ type c14Obs struct {
 	Vals     [][2]int64               `json:"vals"`     // dogfood validator set (index, power)
 	Nonces   [][]int64                `json:"nonces"`   // flattened (validator, feeder, value)
 	Panic    bool                     `json:"panic"`
+	Px       []string                 `json:"px"`     // GetSpecifiedAssetsPrice for every asset id registered in the stored params
+	PxDig    uint64                   `json:"px_dig"`
 	Fins     [][]uint64               `json:"fins"`    // (feeder, based) finalised by a tx of this block
 	Counted  [][]uint64               `json:"counted"` // (validator, feeder, based) accepted, non-final messages of this block
 	Mem      oraclekeeper.VerifC14Mem `json:"-"`
@@ -228,6 +230,28 @@ func (w *c14World) paramUpdate(kind int, revert bool) (code int) {
 		p.TokenFeeders = []*oracletypes.TokenFeeder{{TokenID: 3, RuleID: 1, StartRoundID: 1, StartBaseBlock: h + 2, Interval: uint64(2 * cur.MaxNonce)}}
 	case 2:
 		p.TokenFeeders = []*oracletypes.TokenFeeder{{TokenID: 2, EndBlock: h + 4}}
+	case 4, 5:
+		// token registration as the assets gateway does it (RegisterNewTokenAndSetTokenFeeder): 4 = a new token (new feeder
+		// starting 10 blocks later), 5 = an EXISTING token name + chain with a new asset id (only the asset id is bound)
+		oi := oracletypes.OracleInfo{}
+		oi.Chain.Name, oi.Chain.Desc = "Ethereum", "-"
+		if kind == 4 {
+			oi.Token.Name, oi.Token.Decimal, oi.Token.Contract = "TKR", "8", "0xr"
+			oi.AssetID = fmt.Sprintf("0xc14aaa00000000000000000000000000000000%02x_0x65", h%200)
+			oi.Feeder.Interval = "8"
+		} else {
+			oi.Token.Name, oi.Token.Decimal, oi.Token.Contract = "ETH", "18", "0x"
+			oi.AssetID = fmt.Sprintf("0xc14bbb00000000000000000000000000000000%02x_0x65", h%200)
+		}
+		mc, mwrite := ctx.CacheContext()
+		if err := w.env.App.OracleKeeper.RegisterNewTokenAndSetTokenFeeder(mc, &oi); err != nil {
+			return 5
+		}
+		if revert {
+			return 7
+		}
+		mwrite()
+		return 0
 	default:
 		p.MaxSizePrices = 50
 	}
@@ -347,6 +371,28 @@ func (w *c14World) observe(height int64, codes []int, vu int) c14Obs {
 			}
 		}
 	}
+	// what other modules get when they ask the oracle for a price (reads the IN-MEMORY params when an aggregator exists)
+	if pp := k.GetParams(ctx); true {
+		for _, t := range pp.Tokens {
+			for _, aid := range strings.Split(t.AssetID, ",") {
+				if aid == "" {
+					continue
+				}
+				pr, err := k.GetSpecifiedAssetsPrice(ctx, aid)
+				cls := "ok"
+				if err != nil {
+					cls = "err"
+					if oracletypes.ErrGetPriceAssetNotFound.Is(err) {
+						cls = "notfound"
+					} else if oracletypes.ErrGetPriceRoundNotFound.Is(err) {
+						cls = "noround"
+					}
+				}
+				o.Px = append(o.Px, fmt.Sprintf("%s=%s/%d/%s", aid, pr.Value.String(), pr.Decimal, cls))
+			}
+		}
+	}
+	o.PxDig = c14Dig([]byte(strings.Join(o.Px, ";")))
 	o.AppHash = c14Dig(w.env.App.LastCommitID().Hash)
 	o.Mem = oraclekeeper.VerifC14DumpMem()
 	expired := map[uint64]bool{}
@@ -758,7 +804,7 @@ func (o c14Obs) coq() string {
 	for i, c := range o.Codes {
 		cs[i] = cZ(int64(c))
 	}
-	return cApp("mkObs", cZ(o.Height), cList(cs), c14Rounds(o.Rounds, 99), cZ(int64(o.StoreDig)), cZ(int64(o.AppHash)), cZ(int64(o.MemDig)), cBool(o.Panic))
+	return cApp("mkObs", cZ(o.Height), cList(cs), c14Rounds(o.Rounds, 99), cZ(int64(o.StoreDig)), cZ(int64(o.AppHash)), cZ(int64(o.MemDig)), cZ(int64(o.PxDig)), cBool(o.Panic))
 }
 
 func c14ObsList(os []c14Obs) string {
@@ -839,6 +885,9 @@ func c14ObsEq(a, b c14Obs, mem bool) string {
 	if a.AppHash != b.AppHash {
 		return "apphash"
 	}
+	if a.PxDig != b.PxDig {
+		return "prices"
+	}
 	if mem && a.MemDig != b.MemDig {
 		return "mem"
 	}
@@ -902,6 +951,12 @@ func c14Directed() []c14Plan {
 	d8[7].Undel, d8[7].UndelAmt = 3, 30 // block 8; the removal is emitted at the epoch end of block 10, inside the window of feeder 2's round based 9
 	d8[9].Txs = []c14Tx{{Val: 0, Feeder: 2, Nonce: 1, Based: 9, Prices: px(1, 100)}}
 	d8[10].Txs = []c14Tx{{Val: 1, Feeder: 2, Nonce: 1, Based: 9, Prices: px(1, 100)}}
+	// the assets gateway binds a second asset id to the existing token ETH in block 6; feeder 1 keeps running
+	d9 := e(14)
+	d9[5].ParamUpd = 5
+	d9[7].Txs = []c14Tx{{Val: 0, Feeder: 1, Nonce: 1, Based: 7, Prices: px(1, 100)}}
+	d10 := e(14)
+	d10[4].ParamUpd = 4
 	d3 := e(16)
 	for i := range d3 {
 		d3[i].DT = 20
@@ -915,6 +970,8 @@ func c14Directed() []c14Plan {
 		{name: "kf-reverted-params", cfg: two, blocks: d5, n: 14, puAt: -1, depAt: -1, undAt: -1},
 		{name: "kf-default-maxnonce", cfg: four, blocks: d6, n: 16, puAt: -1, depAt: -1, undAt: -1},
 		{name: "reg-window-underflow", cfg: four, blocks: d7, n: 12, puAt: -1, depAt: -1, undAt: -1},
+		{name: "reg-register-existing-token", cfg: two, blocks: d9, n: 14, puAt: -1, depAt: -1, undAt: -1},
+		{name: "reg-register-new-token", cfg: two, blocks: d10, n: 14, puAt: -1, depAt: -1, undAt: -1},
 		{name: "reg-valset-removal", cfg: three, blocks: d8, n: 18, puAt: -1, depAt: -1, undAt: -1},
 	}
 }
@@ -932,7 +989,7 @@ func runC14(a *Args) error {
 		} else {
 			plan = c14Plan{name: "random", cfg: c14Cfgs(rng), n: 14 + rng.Intn(12), puAt: -1, depAt: -1, style: rng.Intn(2)}
 			if rng.Intn(3) == 0 {
-				plan.puAt, plan.puKind = 3+rng.Intn(plan.n-6), 1+rng.Intn(3)
+				plan.puAt, plan.puKind = 3+rng.Intn(plan.n-6), 1+rng.Intn(5)
 			}
 			if rng.Intn(2) == 0 {
 				plan.depAt, plan.depOp, plan.depAmt = 1+rng.Intn(plan.n-6), 1+rng.Intn(len(plan.cfg.Deposits)), int64(1+rng.Intn(150))
